@@ -44,26 +44,28 @@ import (
 )
 
 type PRes struct {
-	Host      string      `json:"host"`
-	Path      string      `json:"path"`
-	Size      int         `json:"size"`
-	CC        []string    `json:"cc,omitempty"`      // Cache-Control header lines
-	Expires   string      `json:"expires,omitempty"` // literal value, or "+<sec>" / "-<sec>" relative to the response instant
-	ETag      string      `json:"etag,omitempty"`    // "strong" | "weak" | ""
-	LastMod   bool        `json:"lastmod,omitempty"`
-	Status    int         `json:"status,omitempty"`
-	RangeMode string      `json:"range,omitempty"` // "ignore" (default) | "honor" | "416"
-	CondMode  string      `json:"cond,omitempty"`  // "304" (default: proper revalidation) | "200" | "404" | "500"
-	BumpAtMs  []int64     `json:"bump_at,omitempty"`
-	BumpEvery int         `json:"bump_every,omitempty"`
-	Extra     [][2]string `json:"extra,omitempty"`
-	Chunk     int         `json:"chunk,omitempty"`
-	AbortAt   int         `json:"abort_at,omitempty"`   // >0: connection dropped after this many body bytes (first AbortN responses)
-	AbortN    int         `json:"abort_n,omitempty"`    // how many responses are aborted (default 1 when AbortAt>0)
-	NoLength  bool        `json:"no_length,omitempty"`  // chunked transfer, no Content-Length
-	Redirect  int         `json:"redirect,omitempty"`   // answer 302 to resource index Redirect-1
-	Wild      bool        `json:"wild,omitempty"`       // answers any path of this host; body identity = hash of the received target
-	NoDate    bool        `json:"no_date,omitempty"`
+	Host        string      `json:"host"`
+	Path        string      `json:"path"`
+	Size        int         `json:"size"`
+	CC          []string    `json:"cc,omitempty"`      // Cache-Control header lines
+	Expires     string      `json:"expires,omitempty"` // literal value, or "+<sec>" / "-<sec>" relative to the response instant
+	ETag        string      `json:"etag,omitempty"`    // "strong" | "weak" | ""
+	LastMod     bool        `json:"lastmod,omitempty"`
+	Status      int         `json:"status,omitempty"`
+	RangeMode   string      `json:"range,omitempty"`         // "ignore" (default) | "honor" | "416"
+	CondMode    string      `json:"cond,omitempty"`          // "304" (default: proper revalidation) | "200" | "404" | "500"
+	EvictOnCond bool        `json:"evict_on_cond,omitempty"` // the stored entries are deleted while a conditional request for this resource is at the origin
+	BumpAtMs    []int64     `json:"bump_at,omitempty"`
+	BumpEvery   int         `json:"bump_every,omitempty"`
+	Extra       [][2]string `json:"extra,omitempty"`
+	Chunk       int         `json:"chunk,omitempty"`
+	AbortAt     int         `json:"abort_at,omitempty"`  // >0: connection dropped after this many body bytes (first AbortN responses)
+	AbortN      int         `json:"abort_n,omitempty"`   // how many responses are aborted (default 1 when AbortAt>0)
+	NoLength    bool        `json:"no_length,omitempty"` // chunked transfer, no Content-Length
+	Redirect    int         `json:"redirect,omitempty"`  // answer 302 to resource index Redirect-1
+	Wild        bool        `json:"wild,omitempty"`      // answers any path of this host; body identity = hash of the received target
+	NoDate      bool        `json:"no_date,omitempty"`
+	NoCloseEcho bool        `json:"no_close_echo,omitempty"` // raw responses: do not echo "close" although asked (the connection is closed anyway)
 }
 
 type PReq struct {
@@ -107,82 +109,82 @@ type ProxyPlan struct {
 
 // OLog is one request as the origin saw it, and what it answered.
 type OLog struct {
-	N         int
-	Seq       int64
-	Step      int
-	T         time.Time
-	Method    string
-	Host      string
-	URI       string
-	Hdr       http.Header
-	BodyLen   int
-	BodyHash  uint64
-	Res       int
-	Ver       int
-	Status    int
-	RespHdr   http.Header
-	RespBody  []byte
-	Aborted   bool
-	Cond      bool
-	Marker    bool
-	DoneSeq   int64
-	Finished  bool
+	N        int
+	Seq      int64
+	Step     int
+	T        time.Time
+	Method   string
+	Host     string
+	URI      string
+	Hdr      http.Header
+	BodyLen  int
+	BodyHash uint64
+	Res      int
+	Ver      int
+	Status   int
+	RespHdr  http.Header
+	RespBody []byte
+	Aborted  bool
+	Cond     bool
+	Marker   bool
+	DoneSeq  int64
+	Finished bool
 }
 
 // Exch is one request/response exchange as a client saw it.
 type Exch struct {
-	Client, Idx int
-	Req         PReq
-	Method      string
-	SendSeq     int64
-	SendStep    int
-	SendT       time.Time
-	RecvSeq     int64
-	RecvStep    int
-	RecvT       time.Time
-	HdrT        time.Time
-	Sent        bool
-	Status      int
-	Hdr         http.Header
-	Body        []byte
-	Complete    bool // response completely framed and read
-	Err         string
-	Disconnected bool
-	ConnReused  bool
-	TunnelFail  string
-	RawHead     string
-	Leaf        *x509.Certificate
+	Client, Idx   int
+	Req           PReq
+	Method        string
+	SendSeq       int64
+	SendStep      int
+	SendT         time.Time
+	RecvSeq       int64
+	RecvStep      int
+	RecvT         time.Time
+	HdrT          time.Time
+	Sent          bool
+	Status        int
+	Hdr           http.Header
+	Body          []byte
+	Complete      bool // response completely framed and read
+	Err           string
+	Disconnected  bool
+	ConnReused    bool
+	TunnelFail    string
+	RawHead       string
+	Leaf          *x509.Certificate
 	TunnelOpenSeq int64
-	TunnelUpSeq int64
-	TunnelUpT   time.Time
-	ConnHost    string
-	TE          []string // Transfer-Encoding as declared on the wire
-	CL          int64    // declared Content-Length (-1: none)
-	CfgErr      string
+	TunnelUpSeq   int64
+	TunnelUpT     time.Time
+	ConnHost      string
+	TE            []string // Transfer-Encoding as declared on the wire
+	CL            int64    // declared Content-Length (-1: none)
+	CfgErr        string
 }
 
 type proxyWorld struct {
-	p       *ProxyPlan
-	sim     *zzsim.Sched
-	res     *Result
-	dir     string
-	cfg     *config.Config
-	px      *proxy.Proxy
-	pxLn    *simListener
-	orLn    *simListener
-	mu      sync.Mutex
-	seq     int64
-	olog    []*OLog
-	exch    []*Exch
-	start   time.Time
-	reqCnt  map[int]int
-	aborted map[int]int
-	cond503 map[int]bool
-	dialN   int
-	srvLog  []string
-	caPool  *x509.CertPool
-	ca      certs.CertAuthority
-	caCert  *x509.Certificate
+	p           *ProxyPlan
+	sim         *zzsim.Sched
+	res         *Result
+	dir         string
+	cfg         *config.Config
+	px          *proxy.Proxy
+	pxLn        *simListener
+	orLn        *simListener
+	mu          sync.Mutex
+	seq         int64
+	olog        []*OLog
+	exch        []*Exch
+	start       time.Time
+	reqCnt      map[int]int
+	aborted     map[int]int
+	cond503     map[int]bool
+	dialN       int
+	srvLog      []string
+	caPool      *x509.CertPool
+	ca          certs.CertAuthority
+	caCert      *x509.Certificate
 	tunnelCerts []*x509.Certificate
 	tunnelHosts []string
 	tunnelTimes []time.Time
@@ -380,6 +382,15 @@ func (w *proxyWorld) originHandler(rw http.ResponseWriter, req *http.Request) {
 		status = 302
 		out = []byte("moved\n")
 	} else if e.Cond && req.Method != "POST" {
+		if r.EvictOnCond {
+			// the fault lands inside the revalidation: after the proxy looked the stale entry up,
+			// before it can renew it
+			for _, k := range w.px.VerifCacheKeys() {
+				if w.px.VerifCacheDelete(k) == nil {
+					w.res.fault("entry_evicted_during_revalidation")
+				}
+			}
+		}
 		mode := r.CondMode
 		if mode == "" {
 			mode = "304"
@@ -476,7 +487,7 @@ func (w *proxyWorld) originHandler(rw http.ResponseWriter, req *http.Request) {
 				}
 				// an origin that was asked to close says so, next to its own nominations
 				askedClose := req.Close || strings.Contains(strings.ToLower(strings.Join(req.Header.Values("Connection"), ",")), "close")
-				if askedClose {
+				if askedClose && !r.NoCloseEcho {
 					fmt.Fprintf(&b, "Connection: %s, close\r\n", strings.Join(conn, ", "))
 					e.RespHdr.Add("X-Sim-Wire-Connection-Close", "1")
 				} else {
@@ -1061,7 +1072,8 @@ func execProxyPlan(t *testing.T, p *ProxyPlan, ctl Ctl) (*proxyWorld, *Result) {
 			},
 			DisableKeepAlives: !p.KeepAlive,
 		}
-		http.DefaultTransport = tr
+		trk := &trackRT{rt: tr}
+		http.DefaultTransport = trk
 		elog := log.New(logWriter{w}, "", 0)
 		pxSrv := &http.Server{Handler: http.HandlerFunc(func(rw http.ResponseWriter, r *http.Request) {
 			name := s.UniqueName("srv:" + r.RemoteAddr)
@@ -1115,7 +1127,11 @@ func execProxyPlan(t *testing.T, p *ProxyPlan, ctl Ctl) (*proxyWorld, *Result) {
 		orSrv.Close()
 		tr.CloseIdleConnections()
 		px.Destroy()
-		s.Drain(func(n string) bool { return true })
+		s.DrainGraceful()
+		// a handler killed between receiving an upstream response and the point where its
+		// body is handed to a deferred Close leaves the transport's readLoop waiting for it
+		trk.closeAll()
+		tr.CloseIdleConnections()
 		for i := 0; i < 20; i++ {
 			synctest.Wait()
 			if px.VerifDrainIntervalChan() == 0 {
@@ -1128,4 +1144,32 @@ func execProxyPlan(t *testing.T, p *ProxyPlan, ctl Ctl) (*proxyWorld, *Result) {
 	}
 	sort.SliceStable(w.exch, func(i, j int) bool { return w.exch[i].SendSeq < w.exch[j].SendSeq })
 	return w, res
+}
+
+// trackRT passes every upstream round trip through unchanged and remembers the response
+// bodies so that teardown can close the ones a killed task never got to.
+type trackRT struct {
+	rt     http.RoundTripper
+	mu     sync.Mutex
+	bodies []io.Closer
+}
+
+func (t *trackRT) RoundTrip(r *http.Request) (*http.Response, error) {
+	resp, err := t.rt.RoundTrip(r)
+	if resp != nil && resp.Body != nil {
+		t.mu.Lock()
+		t.bodies = append(t.bodies, resp.Body)
+		t.mu.Unlock()
+	}
+	return resp, err
+}
+
+func (t *trackRT) closeAll() {
+	t.mu.Lock()
+	bs := t.bodies
+	t.bodies = nil
+	t.mu.Unlock()
+	for _, b := range bs {
+		b.Close()
+	}
 }
